@@ -76,6 +76,12 @@ Candidates(v) ==
        {O1("index", i) : i \in f..(f + n - 1)}
   \cup {O2("sliced", a, b) : a \in f..(f + n), b \in f..(f + n)}
   \cup {O2("blocked", a, b) : a \in f..(f + n), b \in f..(f + n)}
+  \cup {O2("stenciled", a, b) : a \in f..(f + n), b \in f..(f + n)}
+  \cup (IF Dim(v) < 2 THEN {}
+        ELSE {[op |-> "stenciled", args |-> <<a, b, c, e>>] :
+                a \in f..(f + n), b \in f..(f + n), c \in v.first[2]..(v.first[2] + v.shape[2]), e \in v.first[2]..(v.first[2] + v.shape[2])})
+  \cup {O2("range", a, b) : a \in f..(f + n), b \in f..(f + n)}
+  \cup {O0(nm) : nm \in {"front", "back", "addr"}}
   \cup {O1("strided", s) : s \in 1..MaxExt}
   \cup {[op |-> "sliced3", args |-> <<a, b, st>>] : a \in f..(f + n), b \in f..(f + n), st \in 2..MaxExt}
   \cup {O1("dropped", k) : k \in 0..n}
@@ -91,6 +97,7 @@ Candidates(v) ==
 
 ResultDim(v, o) ==
   CASE o.op \in {"partitioned", "chunked", "broadcast", "halved"} -> Dim(v) + 1    \* broadcast passes through a (D+1)-dimensional view
+    [] o.op \in {"front", "back", "index"} -> Dim(v) - 1
     [] OTHER -> Dim(v)
 
 Enabled(o) ==
